@@ -1031,6 +1031,14 @@ class _Normalise(ast.NodeTransformer):
         if len(node.ops) != 1:
             return node
         op, l, r = node.ops[0], node.left, node.comparators[0]
+        # `x in (A, B)` with a plain x and a literal of constants is `x == A or x == B` (ints / enum members / strings: identity
+        # shortcuts of `in` coincide with ==)
+        if isinstance(op, (ast.In, ast.NotIn)) and isinstance(r, (ast.Tuple, ast.List, ast.Set)) and 1 <= len(r.elts) <= 6 and all(_constlike(x) for x in r.elts) and (_dotted(l) is not None):
+            cmpop = ast.Eq if isinstance(op, ast.In) else ast.NotEq
+            parts = [ast.copy_location(ast.Compare(left=copy.deepcopy(l), ops=[cmpop()], comparators=[x]), node) for x in r.elts]
+            if len(parts) == 1:
+                return parts[0]
+            return ast.copy_location(ast.BoolOp(op=ast.Or() if isinstance(op, ast.In) else ast.And(), values=parts), node)
         # constant on the left -> on the right
         if type(op) in _FLIP and _constlike(l) and not _constlike(r):
             node.left, node.comparators, node.ops = r, [l], [_FLIP[type(op)]()]
@@ -1057,6 +1065,15 @@ class _Normalise(ast.NodeTransformer):
                 if not hasattr(y, "lineno"):
                     ast.copy_location(y, node)
             return ast.copy_location(lam, node)
+        # map(F, xs) -> (F(_m) for _m in xs)   (both are lazy and call F once per element, in order)
+        if _dotted(node.func) == "map" and len(node.args) == 2 and not node.keywords and _dotted(node.args[0]) and not isinstance(node.args[1], ast.Starred):
+            self._mapn = getattr(self, "_mapn", 0) + 1
+            v = f"_m{self._mapn}"
+            gen = ast.GeneratorExp(elt=ast.Call(func=node.args[0], args=[ast.Name(id=v, ctx=ast.Load())], keywords=[]), generators=[ast.comprehension(target=ast.Name(id=v, ctx=ast.Store()), iter=node.args[1], ifs=[], is_async=0)])
+            for y in ast.walk(gen):
+                if not hasattr(y, "lineno"):
+                    ast.copy_location(y, node)
+            return ast.copy_location(gen, node)
         # set algebra spelled as a method: a.union(b) -> a | b   (analysis vocabulary only)
         if isinstance(node.func, ast.Attribute) and node.func.attr == "union" and len(node.args) == 1 and not node.keywords and not isinstance(node.args[0], ast.Starred):
             return ast.copy_location(ast.BinOp(left=node.func.value, op=ast.BitOr(), right=node.args[0]), node)
@@ -1098,6 +1115,10 @@ class _Normalise(ast.NodeTransformer):
             if dm is not None:
                 stmts = stmts[:i] + dm + stmts[i + 1:]
                 continue
+            fg = self._for_over_generator(st)
+            if fg is not None:
+                stmts = stmts[:i] + [fg] + stmts[i + 1:]
+                continue
             wc = self._while_counter(st)
             if wc is not None:
                 stmts = stmts[:i] + [wc] + stmts[i + 1:]
@@ -1117,6 +1138,24 @@ class _Normalise(ast.NodeTransformer):
             out.append(st)
             i += 1
         return out
+
+    @staticmethod
+    def _for_over_generator(st):
+        """`for v in (E for y in ys): body`  ->  `for y in ys: v = E; body`  (a generator is consumed one element per iteration)"""
+        if not (isinstance(st, ast.For) and not st.orelse and isinstance(st.iter, ast.GeneratorExp) and len(st.iter.generators) == 1 and isinstance(st.target, ast.Name)):
+            return None
+        g = st.iter.generators[0]
+        if g.ifs or g.is_async or not isinstance(g.target, ast.Name):
+            return None
+        used = {x.id for b in st.body for x in ast.walk(b) if isinstance(x, ast.Name)}
+        if g.target.id in used or any(isinstance(x, (ast.Continue,)) for b in st.body for x in ast.walk(b)):
+            return None
+        a = ast.Assign(targets=[ast.Name(id=st.target.id, ctx=ast.Store())], value=st.iter.elt)
+        ast.copy_location(a, st)
+        new = ast.For(target=g.target, iter=g.iter, body=[a] + st.body, orelse=[], type_comment=None)
+        ast.copy_location(new, st)
+        ast.fix_missing_locations(new)
+        return new
 
     @staticmethod
     def _deferred_raise(st, following):
@@ -2150,6 +2189,40 @@ def _inline_new_constants(tree: ast.Module, ref: dict, notes: list) -> ast.Modul
             notes.append(f"inlined new constant {k}")
     return tree
 
+class _PreNormalise(ast.NodeTransformer):
+    """Rewrites that must precede helper inlining because they turn a function *reference* into a call statement:
+    `map(F, xs)` -> generator expression, `for v in (E for y in ys)` -> loop with an assignment."""
+
+    def __init__(self):
+        self.n = _Normalise()
+
+    def visit_Call(self, node):
+        self.generic_visit(node)
+        if _dotted(node.func) == "map":
+            return _Normalise.visit_Call(self.n, node) if False else self._map(node)
+        return node
+
+    def _map(self, node):
+        if len(node.args) == 2 and not node.keywords and _dotted(node.args[0]) and not isinstance(node.args[1], ast.Starred):
+            self.k = getattr(self, "k", 0) + 1
+            v = f"_m{self.k}"
+            gen = ast.GeneratorExp(elt=ast.Call(func=node.args[0], args=[ast.Name(id=v, ctx=ast.Load())], keywords=[]), generators=[ast.comprehension(target=ast.Name(id=v, ctx=ast.Store()), iter=node.args[1], ifs=[], is_async=0)])
+            for y in ast.walk(gen):
+                if not hasattr(y, "lineno"):
+                    ast.copy_location(y, node)
+            return ast.copy_location(gen, node)
+        return node
+
+    def generic_visit(self, node):
+        super().generic_visit(node)
+        if isinstance(node, (ast.stmt, ast.Module, ast.ExceptHandler)):
+            for field in ("body", "orelse", "finalbody"):
+                b = getattr(node, field, None)
+                if isinstance(b, list) and b and isinstance(b[0], ast.stmt):
+                    setattr(node, field, [(_Normalise._for_over_generator(st) or st) for st in b])
+        return node
+
+
 # ---------------------------------------------------------------------------------------------- driver
 def canonicalise(tree: ast.Module, modname: str, is_package: bool = False):
     """Returns (tree, notes). notes: list of strings describing what was rewritten."""
@@ -2172,6 +2245,7 @@ def canonicalise(tree: ast.Module, modname: str, is_package: bool = False):
                 notes.append(f"rename {a} -> {b}")
             cur = census(tree)
         tree = _inline_new_constants(tree, ref, notes)
+        tree = _PreNormalise().visit(tree)
         # helpers unknown to the reference
         helpers = {}
         for st in tree.body:
